@@ -1,1 +1,3 @@
 pub mod framing;
+pub mod sections;
+pub mod timing;
